@@ -197,6 +197,7 @@ func runC20Case(cdc *codec.Codec, kind string, g *codecchk.Gen, rep *caseReporte
 		codecchk.Keys(g, rep)
 	case "numbers":
 		codecchk.HostileNumbers(cdc, g, rep)
+		codecchk.SortJSON(g, rep)
 	}
 }
 
